@@ -126,3 +126,52 @@ func (w *rawWS) readMessage() ([]byte, error) {
 }
 
 func (w *rawWS) close() { w.c.Close() }
+
+// one frame whose payload is streamed from r (n bytes): fin / opcode free, so that a message can be sent as a
+// sequence of fragments (first: the data opcode, then opcode 0) and payloads larger than anything held in memory.
+// The masking key is zero (the payload goes out as it is; the mask bit is set as RFC 6455 demands of a client).
+func (w *rawWS) writeFrameFrom(op byte, fin bool, r io.Reader, n int) error {
+	b0 := op
+	if fin {
+		b0 |= 0x80
+	}
+	hdr := []byte{b0}
+	switch {
+	case n < 126:
+		hdr = append(hdr, 0x80|byte(n))
+	case n < 65536:
+		hdr = append(hdr, 0x80|126, byte(n>>8), byte(n))
+	default:
+		hdr = append(hdr, 0x80|127, 0, 0, 0, 0, 0, 0, 0, 0)
+		binary.BigEndian.PutUint64(hdr[2:], uint64(n))
+	}
+	hdr = append(hdr, 0, 0, 0, 0)
+	bw := bufio.NewWriterSize(w.c, 64<<10)
+	if _, err := bw.Write(hdr); err != nil {
+		return err
+	}
+	if _, err := io.CopyN(bw, r, int64(n)); err != nil {
+		return err
+	}
+	return bw.Flush()
+}
+
+// a text message as fragments of the given sizes (their sum is the length of the message); optionally a ping
+// control frame between two fragments (control frames may be interleaved with the fragments of a message)
+func (w *rawWS) writeFragments(r io.Reader, sizes []int, pings bool) error {
+	for i, sz := range sizes {
+		op := byte(0)
+		if i == 0 {
+			op = 1
+		}
+		if err := w.writeFrameFrom(op, i == len(sizes)-1, r, sz); err != nil {
+			return err
+		}
+		if pings && i < len(sizes)-1 && i%3 == 0 {
+			if err := w.writeFrame(9, []byte("p")); err != nil {
+				return err
+			}
+		}
+	}
+	return nil
+}
